@@ -44,14 +44,14 @@ QuickInstances == { Q1(2), Q2 }
 \* thr = Den (threshold 1.0) is included on purpose: every non-empty free cell is then refined, the fixed one never
 ThoroughInstances == { Q1(2), Q1(3), Q2, T3, T4, X3(2), X4(2) }
 
-\* generation: <<die (doubled lattice units)>>, variant, area scale (quarters of a grid square), threshold %, alpha %,
+\* generation (tall, wide and flat dies; alpha 999 stands for 0.999): <<die (doubled lattice units)>>, variant, area scale (quarters of a grid square), threshold %, alpha %,
 \* iteration limit, initial refinement
 Gen(dies, variants, scales, thrs, alphas, iters, inits) ==
   { [ die |-> d, cells |-> <<>>, owner |-> <<>>, mods |-> <<>>, thr |-> t, maxiter |-> i,
       variant |-> v, ascale |-> s, alpha |-> a, init |-> n ] :
     d \in dies, v \in variants, s \in scales, t \in thrs, a \in alphas, i \in iters, n \in inits }
-GenQuick == Gen({ <<4, 6>>, <<4, 8>> }, { "soft", "fixed", "hard", "flip", "mixed", "twin", "over" }, { 3, 4 }, { 60, 80, 95 }, { 0, 30, 100 },
+GenQuick == Gen({ <<4, 6>>, <<4, 8>>, <<6, 4>>, <<8, 4>> }, { "soft", "fixed", "hard", "flip", "mixed", "twin", "over" }, { 3, 4 }, { 60, 80, 95 }, { 0, 30, 100, 999 },
                 { 1, 2, 3 }, { "none", "grid", "split4", "split8" })
-GenThorough == Gen({ <<4, 6>>, <<4, 8>>, <<6, 6>> }, { "soft", "fixed", "hard", "flip", "mixed", "twin", "over" }, { 2, 3, 4 }, { 50, 60, 70, 80, 95 },
-                   { 0, 30, 50, 100 }, { 1, 2, 3, 4 }, { "none", "grid", "split4", "split8" })
+GenThorough == Gen({ <<4, 6>>, <<4, 8>>, <<6, 6>>, <<6, 4>>, <<8, 4>>, <<12, 4>> }, { "soft", "fixed", "hard", "flip", "mixed", "twin", "over" }, { 2, 3, 4 }, { 50, 60, 70, 80, 95 },
+                   { 0, 30, 50, 100, 999 }, { 1, 2, 3, 4 }, { "none", "grid", "split4", "split8" })
 =============================================================================
